@@ -18,7 +18,7 @@ var (
 	pseudoPattern1 = regexp.MustCompile(`^v(\d+)\.0\.0-(\d{14})-([a-f0-9]{12})$`)
 
 	// vX.Y.Z-pre.0.yyyymmddhhmmss-abcdefabcdef (pre-release base)
-	pseudoPattern2 = regexp.MustCompile(`^v(\d+)\.(\d+)\.(\d+)-([^.]+)\.0\.(\d{14})-([a-f0-9]{12})$`)
+	pseudoPattern2 = regexp.MustCompile(`^v(\d+)\.(\d+)\.(\d+)-([^.+]+)\.0\.(\d{14})-([a-f0-9]{12})$`)
 
 	// vX.Y.(Z+1)-0.yyyymmddhhmmss-abcdefabcdef (release base)
 	pseudoPattern3 = regexp.MustCompile(`^v(\d+)\.(\d+)\.(\d+)-0\.(\d{14})-([a-f0-9]{12})$`)
